@@ -1078,7 +1078,7 @@ func main() {
 		}
 	}
 	rep.Extra["oracle_build_seconds"] = int(time.Since(t0).Seconds())
-	wd := vh.NewWatchdog(rep, 60*time.Second)
+	wd := vh.NewWatchdog(rep, 180*time.Second)
 	idx := 0
 	var histCases []string
 	os.Remove(a.Path("cases_hist.v"))
